@@ -37,6 +37,7 @@ func main() {
 	verif := flag.String("verif", "/verif", "verification directory")
 	replay := flag.String("replay", "", "violation file to replay")
 	list := flag.Bool("list", false, "list rules")
+	listDoc := flag.Bool("listdoc", false, "print the rule catalogue as a markdown table")
 	dump := flag.Bool("dump", false, "print every obligation")
 	onlyRule := flag.String("rule", "", "run only this rule (debugging)")
 	noSelf := flag.Bool("noselftest", false, "skip the mutant self-test")
@@ -68,6 +69,14 @@ func main() {
 	if *list {
 		for _, r := range allRules {
 			fmt.Printf("%-22s %-40s floor=%d\n", r.ID, strings.Join(r.Props, ","), r.Floor)
+		}
+		return
+	}
+	if *listDoc {
+		rs := append([]*Rule{}, allRules...)
+		sort.Slice(rs, func(i, j int) bool { return rs[i].ID < rs[j].ID })
+		for _, r := range rs {
+			fmt.Printf("| %s | %s | %s |\n", r.ID, strings.Join(r.Props, " "), r.Doc)
 		}
 		return
 	}
